@@ -240,6 +240,14 @@ Proof.
   - destruct (sget s x) as [[[] l]|]; cbn [snd]; auto.
   - destruct (sget s x) as [[[] l]|]; cbn [snd]; auto.
     destruct (sarg_val s va); cbn [snd]; auto. apply Forall_set_at; auto. apply keys_ok_array.
+  - destruct (sget s x) as [[k l]|]; cbn [snd]; auto.
+    destruct (sget s y) as [[k' l']|]; cbn [snd]; auto.
+    destruct (is_array k) eqn:A; cbn [andb snd]; auto.
+    destruct (is_array k' && (i + n <=? length l')%nat); cbn [snd]; auto.
+    apply Forall_set_at; auto. destruct k; try discriminate. apply keys_ok_array.
+  - pose proof (G x) as Gx. destruct (sget s x) as [[k l]|]; cbn [snd]; auto.
+    destruct (via_idx v k (length l) i) as [j|]; cbn [snd]; auto.
+    destruct (j <? length l)%nat; cbn [snd]; auto. apply Forall_set_at; auto. apply keys_ok_remove_at. auto.
 Qed.
 
 Lemma swf_init n : swf (sinit n).
